@@ -43,7 +43,7 @@ op = st.one_of(
     st.tuples(st.just("rtw"), si_m, st.integers(0, 1), st.lists(st.tuples(sh, st.lists(st.tuples(st.integers(0, 40), st.integers(1, 6), st.integers(0, 3)).map(list), max_size=2),
                                                                      st.lists(st.tuples(st.integers(0, 60), st.integers(1, 30)).map(list), max_size=2),
                                                                      st.one_of(st.none(), st.integers(0, 50))).map(list), min_size=1, max_size=3), st.lists(rng, max_size=2)),
-    st.tuples(st.just("readv"), si_m, st.lists(sh, max_size=3, unique=True), st.lists(rng, min_size=1, max_size=2)),
+    st.tuples(st.just("readv"), si_m, st.lists(sh, max_size=3, unique=True), st.lists(rng, min_size=0, max_size=2)),
     st.tuples(st.just("lease"), st.integers(0, 4), st.integers(0, 2)),
 ).map(list)
 
